@@ -31,21 +31,21 @@ fn plan(prop: &str, thorough: bool) -> Vec<(String, u64)> {
     let q = |n: u64, t: u64| if thorough { t } else { n };
     let all = u64::MAX;
     let v: Vec<(&str, u64)> = match prop {
-        "C01" => vec![("hist", q(800_000, 20_000_000)), ("histf", q(250_000, 6_000_000))],
-        "C02" => vec![("hist", q(800_000, 20_000_000)), ("histf", q(400_000, 10_000_000))],
-        "C03" => vec![("hist", q(600_000, 15_000_000)), ("histf", q(500_000, 12_000_000))],
-        "C05" => vec![("c05sweep", q(80_000, 2_000_000)), ("histf", q(500_000, 12_000_000))],
-        "C06" => vec![("c06grid", all), ("histf", q(300_000, 7_000_000))],
-        "C07" => vec![("c07grid", all), ("histf", q(600_000, 15_000_000))],
-        "C08" => vec![("c08grid", all), ("hist", q(800_000, 20_000_000))],
-        "C09" => vec![("c09grid", all), ("hist", q(800_000, 20_000_000))],
-        "C10" => vec![("hist", q(800_000, 20_000_000)), ("histf", q(300_000, 7_000_000))],
-        "C11" => vec![("hist", q(800_000, 20_000_000)), ("histf", q(200_000, 5_000_000))],
-        "C12" => vec![("c12loop", all), ("hist", q(800_000, 20_000_000)), ("histf", q(300_000, 7_000_000))],
-        "C13" => vec![("c13grid", all), ("hist", q(800_000, 20_000_000)), ("histf", q(300_000, 7_000_000))],
-        "C17" => vec![("hist", q(200_000, 5_000_000))],
-        "C18" => vec![("c18sweep", q(100_000, 2_500_000)), ("histf", q(500_000, 12_000_000))],
-        "C20" => vec![("c09grid", all), ("hist", q(60_000, 1_000_000)), ("histf", q(30_000, 500_000))],
+        "C01" => vec![("hist", q(800_000, 6_400_000)), ("histf", q(250_000, 2_000_000))],
+        "C02" => vec![("hist", q(800_000, 6_400_000)), ("histf", q(400_000, 3_200_000))],
+        "C03" => vec![("hist", q(600_000, 4_800_000)), ("histf", q(500_000, 4_000_000))],
+        "C05" => vec![("c05sweep", q(80_000, 640_000)), ("histf", q(500_000, 4_000_000))],
+        "C06" => vec![("c06grid", all), ("histf", q(300_000, 2_400_000))],
+        "C07" => vec![("c07grid", all), ("histf", q(600_000, 4_800_000))],
+        "C08" => vec![("c08grid", all), ("hist", q(800_000, 6_400_000))],
+        "C09" => vec![("c09grid", all), ("hist", q(800_000, 6_400_000))],
+        "C10" => vec![("hist", q(800_000, 6_400_000)), ("histf", q(300_000, 2_400_000))],
+        "C11" => vec![("hist", q(800_000, 6_400_000)), ("histf", q(200_000, 1_600_000))],
+        "C12" => vec![("c12loop", all), ("hist", q(800_000, 6_400_000)), ("histf", q(300_000, 2_400_000))],
+        "C13" => vec![("c13grid", all), ("hist", q(800_000, 6_400_000)), ("histf", q(300_000, 2_400_000))],
+        "C17" => vec![("hist", q(200_000, 1_600_000))],
+        "C18" => vec![("c18sweep", q(100_000, 800_000)), ("histf", q(500_000, 4_000_000))],
+        "C20" => vec![("c09grid", all), ("hist", q(60_000, 480_000)), ("histf", q(30_000, 240_000))],
         _ => {
             eprintln!("histsim: no plan for property {prop}");
             std::process::exit(2)
